@@ -491,6 +491,52 @@ def listener_append_unconditional(cls):
     return True if seen_any else None
 
 
+def fire_reaches_every_listener(cls):
+    """fire_parameter_changed / fire_model_changed as resolved for `cls`: the body must be the loop
+    `for l in self.<list>: l.handle_*_changed(self, ...)` — undecorated — optionally wrapped in a PER-INSTANCE re-entrancy
+    guard kept in an attribute of self (`if self.<g>: return; self.<g> = True; try: <loop> finally: self.<g> = False`).
+    A guard kept anywhere else (a decorator's closure, a class or module variable) is shared between objects and would
+    drop the notification of one object while another one is notifying.  -> None (no such method) / True / False"""
+    seen_any = False
+    for meth in ("fire_parameter_changed", "fire_model_changed"):
+        fn, _ = _resolve(cls, meth)
+        if fn is None or getattr(fn, "__isabstractmethod__", False):
+            continue
+        seen_any = True
+        try:
+            node = _nfn(cls, inspect.unwrap(fn)) if hasattr(fn, "__wrapped__") else _nfn(cls, fn)
+        except (Unrec, OSError, TypeError, SyntaxError, IndentationError):
+            return False
+        if hasattr(fn, "__wrapped__") or node.decorator_list:
+            return False  # decorated: whatever the decorator does happens outside the object
+
+        def is_loop(st):
+            return (isinstance(st, ast.For) and _is_self_attr(st.iter) and len(st.body) == 1
+                    and isinstance(st.body[0], ast.Expr) and isinstance(st.body[0].value, ast.Call)
+                    and isinstance(st.body[0].value.func, ast.Attribute)
+                    and st.body[0].value.func.attr in ("handle_parameter_changed", "handle_model_changed")
+                    and isinstance(st.body[0].value.func.value, ast.Name) and isinstance(st.target, ast.Name)
+                    and st.body[0].value.func.value.id == st.target.id and not st.orelse)
+
+        body = [st for st in node.body if not (isinstance(st, ast.Expr) and isinstance(st.value, ast.Constant))]
+        if len(body) == 1 and is_loop(body[0]):
+            continue
+        ok = False
+        if len(body) == 3 and isinstance(body[0], ast.If) and _is_self_attr(body[0].test) and len(body[0].body) == 1 \
+                and isinstance(body[0].body[0], ast.Return) and body[0].body[0].value is None and not body[0].orelse:
+            g = body[0].test.attr
+            sets = (isinstance(body[1], ast.Assign) and len(body[1].targets) == 1 and _is_self_attr(body[1].targets[0], g)
+                    and isinstance(body[1].value, ast.Constant) and body[1].value.value is True)
+            tr = body[2]
+            ok = (sets and isinstance(tr, ast.Try) and len(tr.body) == 1 and is_loop(tr.body[0]) and not tr.handlers
+                  and len(tr.finalbody) == 1 and isinstance(tr.finalbody[0], ast.Assign)
+                  and _is_self_attr(tr.finalbody[0].targets[0], g) and isinstance(tr.finalbody[0].value, ast.Constant)
+                  and tr.finalbody[0].value.value is False)
+        if not ok:
+            return False
+    return True if seen_any else None
+
+
 def all_classes():
     import importlib
     import pkgutil
@@ -548,6 +594,7 @@ def describe(cls, bases):
         "onModel": hm,
         "guards": gs,
         "appends": listener_append_unconditional(cls),
+        "fires_all": fire_reaches_every_listener(cls),
         "clears_ok": clears_after_success(cls),
         "shared": shared_flag_consistency(cls, set(flags)),
     }
@@ -605,6 +652,10 @@ def translate(repo: Path = None):
         "/-- (class, its add_parameter_listener / add_model_listener are exactly `self.<list>.append(listener)`) -/\n"
         "def listenerAppends : List (String × Bool) := [\n"
         + ",\n".join(f"  ({lean_str(d['name'])}, {'true' if d['appends'] else 'false'})" for d in table if d["appends"] is not None)
+        + "\n]\n\n"
+        "/-- (class, its fire_*_changed is the plain loop over its listeners, at most behind a PER-INSTANCE re-entrancy guard) -/\n"
+        "def fireLoops : List (String × Bool) := [\n"
+        + ",\n".join(f"  ({lean_str(d['name'])}, {'true' if d['fires_all'] else 'false'})" for d in table if d["fires_all"] is not None)
         + "\n]\n\n"
         "/-- (class, function, flag, the flag is reset only after the recomputation succeeded: not in finally/except, not\n"
         "    before a computing statement) -/\n"
